@@ -162,7 +162,10 @@ class IsUniqueCheck(AbstractCheck):
         self.reset()
 
         # Extract field names to check from rule.
-        toky = generated_tokens(rule)
+        try:
+            toky = iter(list(generated_tokens(rule)))
+        except (tokenize.TokenError, SyntaxError) as error:
+            raise errors.InterfaceError("cannot split rule %r into field names: %s" % (rule, error), self.location_of_rule)
         after_comma = True
         next_token = next(toky)
         unique_field_names = set()
@@ -225,7 +228,10 @@ class DistinctCountCheck(AbstractCheck):
     def __init__(self, description, rule, available_field_names, location=None):
         super().__init__(description, rule, available_field_names, location)
 
-        tokens = generated_tokens(rule)
+        try:
+            tokens = iter(list(generated_tokens(rule)))
+        except (tokenize.TokenError, SyntaxError) as error:
+            raise errors.InterfaceError("cannot split rule %r into tokens: %s" % (rule, error), self.location_of_rule)
         first_token = next(tokens)
 
         # Obtain and validate field to count.
